@@ -114,45 +114,115 @@ def prepare(log):
 # ---------------------------------------------------------------------------------------------
 # drivers
 
-def _run_lines(cmd, lines, timeout, env=None):
-    inp = ('\n'.join(lines) + '\n').encode()
+MEM_LIMIT = 2 << 30      # address-space limit for the implementation under test (an allocation loop then aborts = `crash`)
+STALL_S = 10             # no answer to one op for this long = `hang` (ops take milliseconds)
+MAX_RESUMES = 15         # after this many crashes / hangs in one stream the remaining ops are answered `skipped`
+
+
+def _limit_memory():
+    import resource
+    resource.setrlimit(resource.RLIMIT_AS, (MEM_LIMIT, MEM_LIMIT))
+
+
+def _run_lines(cmd, lines, timeout, env=None, limit=False):
+    """feed the op lines to a driver and collect one answer line per op; returns (answers so far, status) where status is
+    the exit status, 'timeout' (whole-stream budget) or 'stall' (one op did not answer within STALL_S)"""
+    import threading, selectors, time
     e = dict(os.environ)
     if env:
         e.update(env)
+    p = subprocess.Popen(cmd, stdin=subprocess.PIPE, stdout=subprocess.PIPE, stderr=subprocess.DEVNULL, env=e, cwd='/',
+                         preexec_fn=_limit_memory if limit else None)
+    inp = ('\n'.join(lines) + '\n').encode()
+
+    def feed():
+        try:
+            p.stdin.write(inp)
+            p.stdin.close()
+        except (BrokenPipeError, OSError):
+            pass
+    t = threading.Thread(target=feed, daemon=True)
+    t.start()
+    sel = selectors.DefaultSelector()
+    sel.register(p.stdout, selectors.EVENT_READ)
+    buf, outs = b'', []
+    t0 = last = time.time()
+    status = None
+    os.set_blocking(p.stdout.fileno(), False)
+    while True:
+        now = time.time()
+        if now - t0 > timeout:
+            status = 'timeout'
+            break
+        if now - last > STALL_S and len(outs) < len(lines):
+            status = 'stall'
+            break
+        ev = sel.select(timeout=1.0)
+        if not ev:
+            if p.poll() is not None:
+                # process gone: drain what is left
+                try:
+                    rest = p.stdout.read() or b''
+                except OSError:
+                    rest = b''
+                buf += rest
+                break
+            continue
+        try:
+            data = p.stdout.read()
+        except OSError:
+            data = b''
+        if data is None:
+            continue
+        if data == b'':
+            break
+        buf += data
+        if b'\n' in data:
+            last = time.time()
+            parts = buf.split(b'\n')
+            buf = parts.pop()
+            outs.extend(x.decode('utf-8', 'replace') for x in parts)
+    if status is not None:
+        p.kill()
     try:
-        p = subprocess.run(cmd, input=inp, capture_output=True, timeout=timeout, env=e, cwd='/')
-        outs = p.stdout.decode('utf-8', 'replace').split('\n')
-        if outs and outs[-1] == '':
-            outs.pop()
-        return outs, p.returncode
-    except subprocess.TimeoutExpired as ex:
-        outs = (ex.stdout or b'').decode('utf-8', 'replace').split('\n')
-        if outs and outs[-1] == '':
-            outs.pop()
-        return outs, 'timeout'
+        p.wait(timeout=10)
+    except subprocess.TimeoutExpired:
+        p.kill()
+        p.wait()
+    if buf:
+        parts = buf.split(b'\n')
+        if parts and parts[-1] == b'':
+            parts.pop()
+        outs.extend(x.decode('utf-8', 'replace') for x in parts if status is None)
+    return outs, (status if status is not None else p.returncode)
 
 
-def run_driver(cmd, lines, per_chunk=20000, timeout=600, env=None):
+def run_driver(cmd, lines, per_chunk=20000, timeout=600, env=None, limit=False):
     """run op lines through a line-protocol driver; an op that kills or hangs the driver is answered
-    `crash` / `hang` and the stream is resumed after it"""
+    `crash` / `hang` and the stream is resumed after it (at most MAX_RESUMES times; then `skipped`)"""
     res = []
     i = 0
+    resumes = 0
     while i < len(lines):
+        if resumes >= MAX_RESUMES:
+            res.extend(['skipped'] * (len(lines) - i))
+            break
         chunk = lines[i:i + per_chunk]
-        outs, rc = _run_lines(cmd, chunk, timeout, env)
+        outs, rc = _run_lines(cmd, chunk, timeout, env, limit)
         if len(outs) >= len(chunk):
             res.extend(outs[:len(chunk)])
             i += len(chunk)
             continue
         # driver died or hung at op number len(outs) of this chunk
         res.extend(outs)
-        res.append('hang' if rc == 'timeout' else 'crash')
+        res.append('hang' if rc in ('timeout', 'stall') else 'crash')
         i += len(outs) + 1
+        resumes += 1
     return res
 
 
 def run_impl(lines, **kw):
-    return run_driver([BIN, '--verif-driver'], lines, **kw)
+    return run_driver([BIN, '--verif-driver'], lines, limit=True, **kw)
 
 
 def run_model(lines, **kw):
@@ -349,11 +419,22 @@ def load_known():
 # ---------------------------------------------------------------------------------------------
 # shrinking
 
-def shrink_strings(fields, still_fails, budget=400):
-    """greedy delta-debugging over a list of strings: drop fields' characters while the predicate holds"""
+def shrink_strings(fields, still_fails, budget=400, seconds=90):
+    """greedy delta-debugging over a list of strings: drop fields' characters while the predicate holds
+    (bounded by a number of trials and by wall-clock time: a trial may be a hang that costs the stall time-out)"""
+    import time
     cur = list(fields)
     n = 0
     changed = True
+    deadline = time.time() + seconds
+    _sf = still_fails
+
+    def still_fails(trial):
+        nonlocal n
+        if time.time() > deadline:
+            n = budget
+            return False
+        return _sf(trial)
     while changed and n < budget:
         changed = False
         for i in range(len(cur)):
